@@ -312,6 +312,33 @@ def run(ctx):
     g = [x for x in P.globals.values() if x.get("name") == "enabled" and x.get("static_local")]
     ctx.check(tl or any(x.get("tls") for x in g), "silencing-flag-thread_local", "storage_class", en.loc(),
               "LogStream::enabled()'s flag is thread_local", "the silencing flag is not thread_local: DISABLE in one thread silences all threads")
+    # ... and so is every other piece of state the Control manipulator keeps: function-local statics of the LogStream methods it reaches
+    ctl = [f for f in P.fns.values() if f.cls.endswith("LogStream") and "operator<" in f.pq and any("Control" in (p_.get("type") or "") for p_ in f.params)]
+    ctx.counters["control_manipulators"] = len(ctl)
+    ctx.floor("control_manipulators", 1, "LogStream::operator<< <Control>")
+    seen_, todo_ = set(), [f.usr for f in ctl]
+    while todo_:
+        u_ = todo_.pop()
+        if u_ in seen_ or u_ not in P.fns:
+            continue
+        seen_.add(u_)
+        for e_ in cg.out.get(u_, ()):
+            if e_.dst in P.fns and P.fns[e_.dst].cls.endswith("LogStream"):
+                todo_.append(e_.dst)
+    n_static = 0
+    for u_ in sorted(seen_):
+        g_ = P.fns[u_]
+        ctx.use(g_)
+        for i in g_.all("decl"):
+            for v in g_.nodes[i].get("vars", []):
+                if v.get("static"):
+                    n_static += 1
+                    ctx.check(bool(v.get("tls")), "silencing-state-is-per-thread:%s:%s" % (short(g_), v["name"]), "storage_class", g_.loc(i),
+                              "state kept by the DISABLE/ENABLE manipulator is thread_local",
+                              "%s in %s is a plain static: it is shared by all threads, so one thread's DISABLE/ENABLE changes what another thread's "
+                              "ENABLE does (its own flag is not restored)" % (v["name"], g_.pq))
+    ctx.counters["silencing_statics"] = n_static
+    ctx.floor("silencing_statics", 1, "function-local statics reachable from the Control manipulator (the flag itself)")
     from .C17 import kmsg_path_ignores_silencing
     kmsg_path_ignores_silencing(ctx)
     km = ctx.fn1("Oomd::Log::kmsgLog")
